@@ -113,14 +113,10 @@ func c08TxTag(inTx bool) string {
 // ---------------------------------------------------------------------------------------------
 // Private state of the real object -> model (phi).  Reads the raw maps; no observer is called.
 
-// c08HasMarker: some open transaction marks the child's *name* deleted in the shared deletes map.
+// c08HasMarker: the innermost open transaction marks the child's *name* deleted in the shared deletes map.
 func c08HasMarker(ts *TrieState) bool {
-	for e := ts.transactions.Front(); e != nil; e = e.Next() {
-		if e.Value.(*storageDiff).deletes[c08Child] {
-			return true
-		}
-	}
-	return false
+	e := ts.transactions.Back()
+	return e != nil && e.Value.(*storageDiff).deletes[c08Child]
 }
 
 // c08BothMarks: child keys that the innermost storageDiff holds both as an upsert and as a deletion
